@@ -15,7 +15,7 @@ Definition ref_footprints : list (string * (list string * list bool * list strin
   ("cdup", ([], [], [], [], []));
   ("cwd", (["250"], [true], [], ["current_directory"], []));
   ("dele", (["250"], [true], ["unlink"], [], []));
-  ("epsv", (["522"; "229"; "421"], [false; true], [], ["passive_server"], ["data_connection"]));
+  ("epsv", (["522"; "229"; "421"], [true; false], [], ["passive_server"], ["data_connection"]));
   ("list", (["150"], [true], [], [], []));
   ("mkd", (["257"], [true], ["mkdir(parents=True)"], [], []));
   ("mlsd", (["150"], [true], [], [], []));
@@ -41,8 +41,8 @@ Definition ref_footprints : list (string * (list string * list bool * list strin
 Definition ref_workers : list (string * (string * list (list string) * list string * list string * bool * bool)) := [
   ("list_worker", ("list", [["stream"]], [], ["226"], true, true));
   ("mlsd_worker", ("mlsd", [["stream"]], [], ["200"], true, true));
-  ("retr_worker", ("retr", [["file_in"; "stream"]], ["rb"], ["226"], true, true));
-  ("stor_worker", ("stor", [["file_out"; "stream"]], ["restart:r+b"; "norestart:$mode"], ["226"], true, true))
+  ("retr_worker", ("retr", [["stream"; "file_in"]], ["rb"], ["226"], true, true));
+  ("stor_worker", ("stor", [["stream"; "file_out"]], ["handed:r+b"; "nohanded:$mode"], ["226"], true, true))
 ].
 
 Definition fp_of (h : Facts.handler) :=
